@@ -35,3 +35,6 @@
 ;@heap varStmtArrAllocated A_E_S_ast_VarStmt
 (define-fun astMapAllocated ((a (Array Int Bool)) (r Int)) Bool (select a r))
 ;@heap astMapAllocated A_M_Str_ast_Expr
+; the operator-carrying nodes a tree value points to exist (so that fields written only at construction keep their value)
+(define-fun liveOp ((ab (Array Int Bool)) (al (Array Int Bool)) (v Val)) Bool (and (=> (isBinary v) (select ab (vpref v))) (=> (isLogical v) (select al (vpref v)))))
+;@heap liveOp A_H_ast_Binary A_H_ast_Logical
